@@ -20,7 +20,7 @@ func init() {
 			"(3) deny is sticky and everything else is a union when rules for one pattern are merged; " +
 			"(4) the priority comparator of non-exact matches is the documented lexicographic order (first wildcard/glob position, prefix-ness, wildcard count, length, text) — decided by enumerating the closure's CFG paths over the five compared keys — and the caller takes the greatest element after sorting; exact matches are consulted before non-exact ones; " +
 			"(5) rule paths and request paths are namespace-qualified, and the qualifying store lies on every path from the creation of a rule object to its append to the policy's paths; " +
-			"(6) ownership: the per-request ACL never aliases mutable state of the cached policy objects — everything inserted into the ACL's rule trees comes from ACLPermissions.Clone or from the trees themselves, and map-typed permission fields are only assigned deep copies — so decisions cannot depend on which ACLs were built earlier; " +
+			"(6) ownership: the per-request ACL never aliases mutable state of the cached policy objects — everything inserted into the ACL's rule trees comes from ACLPermissions.Clone or from the trees themselves, and map-typed permission fields are only assigned deep copies — so decisions cannot depend on which ACLs were built earlier; every map-, slice- and pointer-typed field of the value ACLPermissions.Clone returns is a fresh allocation or deep copy (never a load of the receiver's field), and a policy slice stored into the accumulated entry is replaced by an owned one before the entry is inserted; " +
 			"(7) the rule stored under the request path without its trailing slash is consulted for list and scan only; " +
 			"(8) for read/update/create/patch every allowing path ran the required-parameter loop to its end, then (when the request carries parameters) found denied_parameters empty or ran the denied loop to its end, then found allowed_parameters empty, equal to {\"*\"} or ran the allowed loop to its end; the refusing edges (required parameter absent, \"*\" denied, denied value, value outside the allowed list, parameter outside allowed_parameters without \"*\") never reach an allow; " +
 			"(9) list and scan alike evaluate pagination_limit, and a limit above it, a negative limit or a missing required limit never reaches an allow; " +
